@@ -203,6 +203,9 @@ pub struct Cfg {
     pub max_wrap: Option<usize>,
     pub pad: bool,
     pub raw: bool,
+    /// `.raw_mode(false)` called as the last builder step (a no-op on the mode that
+    /// must not undo an earlier `no_table_borders()`)
+    pub raw_false_last: bool,
     pub no_borders: bool,
     pub no_link_wrap: bool,
     pub footnotes: Option<bool>,
@@ -221,6 +224,7 @@ impl Cfg {
             max_wrap: None,
             pad: false,
             raw: false,
+            raw_false_last: false,
             no_borders: false,
             no_link_wrap: false,
             footnotes: None,
@@ -274,6 +278,9 @@ impl Cfg {
         }
         if self.raw {
             s.push_str("+raw");
+        }
+        if self.raw_false_last {
+            s.push_str("+then_raw_mode(false)");
         }
         if self.no_borders {
             s.push_str("+noborders");
@@ -342,6 +349,9 @@ fn apply<D: TextDecorator>(mut c: Config<D>, cfg: &Cfg) -> Result<Config<D>, htm
             Origin::Agent => c.add_agent_css(s)?,
             Origin::User => c.add_css(s)?,
         };
+    }
+    if cfg.raw_false_last {
+        c = c.raw_mode(false);
     }
     Ok(c)
 }
